@@ -405,6 +405,8 @@ def run_unit(u, tier, kfs):
     my_kf = [k for k in kfs if k.get("status") == "known" and u["id"] in k.get("units", [])]
     excl = ["KF_EXCLUDE_" + k["id"] for k in my_kf]
     u = dict(u)
+    if tier == "thorough" and u.get("thorough"):
+        u.update(u["thorough"])       # deeper bounds / larger unwinding for the thorough tier
     u["kf_exclude_defs"] = excl
     out = {"unit": u["id"], "kind": u.get("kind", "proof"), "kf": []}
     main = run_variant(u, tier, excl, "main")
